@@ -1,6 +1,7 @@
 import FrappyProofs.Lemmas.Config
 import FrappyProofs.Lemmas.Merge
 import FrappyProofs.Lemmas.WriteLoop
+import FrappyProofs.Lemmas.ConfigDsl
 import FrappyModel.Klass.ConfigDT
 import FrappyModel.Generated.C10
 /-
@@ -120,6 +121,97 @@ theorem config_applied_own (ops : Ops DT Val) (c : ClassDesc DT Val) (cfg : Cfg 
   have pk := (param_ok ops insts' pd dt0 _ items o (by rw [hst]; simp [classAcc, hdt]) hcfg hadd (herrs o ho)).2
   rw [hst] at pk
   exact ⟨o.inst, by rw [hi]; exact List.mem_map_of_mem ho, addParam_name ops _ _ _ _ hadd, pk⟩
+
+/-! ## module properties -/
+
+theorem applyModProp_given (d : ModPropDesc Val) (cfg : Cfg Val) (v : Val) (hg : propGiven d cfg = some v) :
+    applyModProp d (lookup d.name cfg) = match d.validate v with | some v' => .set v' | none => .bad := by
+  unfold propGiven at hg
+  cases hl : lookup d.name cfg with
+  | none => simp [hl] at hg
+  | some e =>
+    rw [hl] at hg
+    cases e with
+    | prop pc =>
+      cases pc with
+      | bare v0 => simp only [Option.some.injEq] at hg; subst hg; rfl
+      | dict ov => simp only at hg; subst hg; rfl
+    | acc items => simp only at hg; simp only [applyModProp, hg]; cases d.validate v <;> rfl
+
+/-- "each configured module property … is applied to that instance": in an accepted configuration of a well-formed
+class, the value the configuration gives for a module property — bare, as `Param(v)` or in a dict — converted by the
+property's datatype is the value the instance has.  (Holds for every instance built: `applyConfig` only reads `cfg`.) -/
+theorem modprops_applied (ops : Ops DT Val) (c : ClassDesc DT Val) (cfg : Cfg Val) (i : Instance DT Val)
+    (wf : WellFormed c) (h : applyConfig ops c cfg = .ok i) (d : ModPropDesc Val) (hd : d ∈ c.modProps) (v : Val)
+    (hg : propGiven d cfg = some v) :
+    ∃ v', d.validate v = some v' ∧ lookup d.name i.modProps = some v' := by
+  have acc := accepted_of_ok ops c cfg i h
+  have hok := ((modProps_ok cfg c.modProps ⟨[], [], false⟩ rfl acc.mpRaised acc.mpErrs).2 d hd).2
+  have hap := applyModProp_given d cfg v hg
+  cases hv : d.validate v with
+  | none => rw [hv] at hap; rw [hap] at hok; rcases hok with h1 | ⟨_, h1⟩ <;> cases h1
+  | some v' =>
+    rw [hv] at hap
+    refine ⟨v', rfl, ?_⟩
+    rw [acc.inst]
+    exact Lemmas.ConfigDsl.modProps_value cfg d v' hap c.modProps ⟨[], [], false⟩ rfl acc.mpRaised wf.propNames hd rfl
+
+/-! ## optional accessibles: declared in a base class, not implemented by the class -/
+
+/-- the constructor's loop over `accessibles` (with its `continue` for optional ones) is the loop over the implemented
+accessibles, and it takes out of `cfgdict` only entries of implemented accessibles -/
+theorem optional_skipped (ops : Ops DT Val) (ds : List (AccDecl DT Val)) (cfg : Cfg Val) :
+    (accLoop ops ds cfg).out = applyParams ops (implemented ds) cfg ∧
+    ∀ k ∈ (accLoop ops ds cfg).popped, k ∈ (implemented ds).map (·.name) := by
+  refine ⟨Lemmas.ConfigDsl.accLoop_fold ops cfg ds _, fun k hk => ?_⟩
+  rcases Lemmas.ConfigDsl.accLoop_popped ops cfg ds _ k hk with h | h
+  · cases h
+  · exact h
+
+/-- a cfg entry naming an optional accessible which the class does not implement (and which is not the name of
+anything else the class has) is never consumed by the loop and the configuration is rejected -/
+theorem optional_cfg_rejected (ops : Ops DT Val) (mp : List (ModPropDesc Val)) (ds : List (AccDecl DT Val))
+    (other : List Name) (cfg : Cfg Val) (wf : WellFormed (⟨mp, implemented ds, other⟩ : ClassDesc DT Val))
+    (d : AccDecl DT Val) (_hd : d ∈ ds) (_hopt : d.optional = true) (hcfg : d.desc.name ∈ cfg.map (·.1))
+    (hnot : d.desc.name ∉ knownNames (⟨mp, implemented ds, other⟩ : ClassDesc DT Val)) :
+    d.desc.name ∉ (accLoop ops ds cfg).popped ∧
+    ∃ es, applyConfig ops ⟨mp, implemented ds, other⟩ cfg = .error es ∧ es ≠ [] := by
+  refine ⟨fun hp => hnot ?_, rejected_whole ops _ cfg wf (.unknownName d.desc.name hcfg hnot)⟩
+  have := (optional_skipped ops ds cfg).2 _ hp
+  simp only [knownNames, List.mem_append]
+  exact Or.inl (Or.inr this)
+
+/-! ## the configuration DSL -/
+
+open Lemmas.ConfigDsl in
+/-- every member of a `Group(…)` has an argument of its own -/
+def GroupsOk {Val : Type} (args : List (Name × DslArg Val)) : Prop :=
+  ∀ g ms, (g, DslArg.group ms) ∈ args → ∀ m ∈ ms, ∃ a, (m, a) ∈ args ∧ (writtenItems a).isSome = true
+
+/-- full statement: the dict `Mod(name, cls, description, args…)` builds is the module configuration the written text
+stands for (`specCfg`), for every well-written argument list -/
+def dsl_faithful_statement : Prop :=
+  ∀ (Val : Type) (mkStr : Name → Val) (descr : Val) (args : List (Name × DslArg Val)),
+    Lemmas.ConfigDsl.WrittenOk args → GroupsOk args → modDict mkStr descr args = some (specCfg mkStr descr args)
+
+/-- proved part: argument lists without `Group(…)` — bare values, `Param(v, k=…)`, `Param(k=…)`.  In particular every
+written value, whatever it is (`None`, `0`, `''` …), is in the dict under `value`.  Missing: the second loop of
+`Mod.__init__` (`self[member]['group'] = group`); it is covered by the correspondence run and judged by the monitors. -/
+theorem dsl_faithful_partial (mkStr : Name → Val) (descr : Val) (args : List (Name × DslArg Val))
+    (ok : Lemmas.ConfigDsl.WrittenOk args) (hg : groupsOf args = []) :
+    modDict mkStr descr args = some (specCfg mkStr descr args) := by
+  unfold modDict specCfg
+  rw [hg]
+  have hfold := Lemmas.ConfigDsl.modArgs_fold args [("description", Entry.prop (PropCfg.bare descr))] ok.keys
+    (fun k hk => by
+      have : "description" ≠ k := fun he => ok.noDescr (he ▸ hk)
+      simp [lookup, this])
+    ok.noValueKw
+  simp only [List.foldl_nil, hfold, List.singleton_append, Option.some.injEq, List.cons.injEq, true_and]
+  apply Lemmas.ConfigDsl.filterMap_ext
+  intro kv _
+  have : groupFor args kv.1 = none := Lemmas.ConfigDsl.groupFor_none kv.1 args none hg
+  simp [Lemmas.ConfigDsl.plainEntry, this, withGroup]
 
 /-! ## written exactly once, before the first poll -/
 
@@ -446,6 +538,60 @@ example : (match applyConfig toyOps exClassL [("description", .prop (.bare 7)), 
     | .ok i => i.params.map (fun p => (p.name, p.dt, p.value)) ==
         [("pa", some (0, 10), some 1), ("pa_max", some (0, 5), some 10)]
     | .error _ => false) = true := by decide
+
+/-- `modprops_applied` is not vacuous: the configured description is on the instance -/
+example : ∃ i, applyConfig toyOps exClass exCfg = .ok i ∧
+    propGiven (⟨"description", some, true, none⟩ : ModPropDesc Int) exCfg = some 7 ∧
+    lookup "description" i.modProps = some 7 := ⟨_, rfl, rfl, rfl⟩
+
+/-- a base class declares `ramp` as optional, the class does not implement it -/
+def exDecls : List (AccDecl (Int × Int) Int) := [⟨exParam, false⟩, ⟨{ exParam with name := "ramp" }, true⟩]
+
+example : implemented exDecls = [exParam] := rfl
+
+/-- the hypotheses of `optional_cfg_rejected` are met: `ramp=…` in the cfg of the class without `ramp` … -/
+example : (⟨{ exParam with name := "ramp" }, true⟩ : AccDecl (Int × Int) Int) ∈ exDecls ∧
+    "ramp" ∈ (exCfg ++ [("ramp", Entry.acc [("value", 5)])] : Cfg Int).map (·.1) ∧
+    "ramp" ∉ knownNames (⟨exClass.modProps, implemented exDecls, []⟩ : ClassDesc (Int × Int) Int) :=
+  ⟨by simp [exDecls], by decide, by decide⟩
+
+/-- … and it is reported as a name that does not exist (the loop has not taken it out of cfgdict) -/
+example : (match applyConfig toyOps ⟨exClass.modProps, implemented exDecls, []⟩ (exCfg ++ [("ramp", .acc [("value", 5)])]) with
+    | .error es => es == [.unknownNames ["ramp"]] && !(accLoop toyOps exDecls (exCfg ++ [("ramp", .acc [("value", 5)])])).popped.contains "ramp"
+    | .ok _ => false) = true := by decide
+
+/-- a module as written: `Mod('m', cls, 7, pa=Param(-999, max=20), pb=3, pc=Param(min=1))` — the written value of `pa`
+(here -999, "a value of the wrong type", think of `None`) IS in the dict, after the keywords -/
+def exArgs : List (Name × DslArg Int) :=
+  [("pa", .param (some (-999)) [("max", 20)]), ("pb", .bare 3), ("pc", .param none [("min", 1)])]
+
+theorem exArgs_ok : Lemmas.ConfigDsl.WrittenOk exArgs :=
+  ⟨by decide, by decide, by
+    intro k v kwds h
+    simp only [exArgs, List.mem_cons, Prod.mk.injEq, List.not_mem_nil, or_false] at h
+    rcases h with ⟨_, h⟩ | ⟨_, h⟩ | ⟨_, h⟩
+    · cases h; rfl
+    · cases h
+    · cases h⟩
+
+example : groupsOf exArgs = [] ∧ modDict (fun _ => 0) 7 exArgs = some
+    [("description", .prop (.bare 7)), ("pa", .acc [("max", 20), ("value", -999)]), ("pb", .acc [("value", 3)]),
+     ("pc", .acc [("min", 1)])] := ⟨rfl, rfl⟩
+
+/-- … so the module is rejected for the ill-typed value, end to end -/
+example : (match (modDict (fun _ => 0) 7 exArgs).map (applyConfig toyOps { exClass with params :=
+      [exParam, { exParam with name := "pb" }, { exParam with name := "pc" }] }) with
+    | some (.error es) => es == [.badValue "pa" "value"]
+    | _ => false) = true := by decide
+
+/-- the statement with groups on a concrete instance: `g=Group('pa', 'pc')` puts `group` into both dicts -/
+example : modDict (fun _ => 42) 7 (exArgs ++ [("g", .group ["pa", "pc"])]) =
+    some (specCfg (fun _ => 42) 7 (exArgs ++ [("g", .group ["pa", "pc"])])) ∧
+    cfgOf "pc" (specCfg (fun _ => 42) 7 (exArgs ++ [("g", .group ["pa", "pc"])])) = some [("min", 1), ("group", 42)] :=
+  ⟨rfl, rfl⟩
+
+/-- a group member without argument of its own: `KeyError`, the file does not load -/
+example : modDict (fun _ => 42) 7 (exArgs ++ [("g", .group ["zz"])]) = none := rfl
 
 /-- merging on a concrete example: three files, `b` defined in all of them, `c` only in the third -/
 example : mergeB (· == ·)
